@@ -29,6 +29,7 @@ def main():
         print(f"  {k}: {ctx.distribution.get(k)}")
     for d in ctx.disagreements[:5]:
         print("  DISAGREE", json.dumps(d, default=str)[:1500])
+    print("  witness of C04.Ex.quic_route_counterexample on the real code:", mm.replay_cross_routing())
     bad = bool(ctx.proof_problems or ctx.disagreements)
     print("RESULT", "FLAGGED" if bad else "agree")
     return 1 if bad else 0
